@@ -45,9 +45,11 @@
 // "create .../segment/day/20260924/7/000012.sst" (see cmd/c11/conc.go).
 //
 // Clock dependent edge: a memory database is keyed by lindb's 5ms fasttime clock inside the shard level series index.
-// Two memory databases of one shard created in the same tick collide (C11 finding). Write therefore waits for the
-// next tick before a batch that will create a memory database (Options.NoTickGuard switches that off,
-// Options.StrictTickGuard paces every batch - needed when flushes run concurrently with writes).
+// Two memory databases of one shard created in the same tick used to collide (C11 finding, repaired by lindb commit
+// 1302c79 which makes the creation stamp unique; before that commit data was lost). Write still waits for the next tick
+// before a batch that will create a memory database, so that engines behave the same on older trees
+// (Options.NoTickGuard switches that off - the C11 engine does, to keep the case exercised; Options.StrictTickGuard
+// paces every batch - only needed on a tree without the repair when flushes run concurrently with writes).
 // MemDBCreatedTicks(f) reads the creation stamps back exactly.
 //
 // # Loopback query cluster
